@@ -24,6 +24,9 @@ pub struct BitFlip;
 
 impl Sub for BitFlip {
     type Case = FlipCase;
+    fn restrictable(&self) -> bool {
+        true
+    }
     fn name(&self) -> &'static str {
         "seed_bit_flip"
     }
@@ -78,6 +81,9 @@ pub struct Repeat;
 
 impl Sub for Repeat {
     type Case = RepeatCase;
+    fn restrictable(&self) -> bool {
+        true
+    }
     fn name(&self) -> &'static str {
         "keygen_repeat"
     }
@@ -164,6 +170,9 @@ fn related(seed: &[u8; 32], relation: u8, a: u8, b: u8) -> ([u8; 32], [u8; 32]) 
 
 impl Sub for RelatedSeeds {
     type Case = RelatedCase;
+    fn restrictable(&self) -> bool {
+        true
+    }
     fn name(&self) -> &'static str {
         "keygen_related_seeds"
     }
